@@ -43,6 +43,8 @@ pub enum Expr {
     Len { name: String },
     Index { name: String, idx: Box<Expr>, ty: Ty },
     Member { name: String, member: String, ty: Ty },
+    /// `[e1, e2, e3]` of i32 expressions (an argument for a `[]i32` parameter)
+    ArrayLit { es: Vec<Expr>, ty: Ty },
     /// `S { m: e }` / `W { m: e }` (both declare `m: i32`)
     Structural { name: String, e: Box<Expr>, ty: Ty },
 }
@@ -51,13 +53,13 @@ impl Expr {
     pub fn ty(&self) -> Ty {
         match self {
             Expr::Lit { ty, .. } | Expr::Ref { ty, .. } | Expr::Bin { ty, .. } | Expr::Un { ty, .. } | Expr::As { ty, .. }
-            | Expr::Call { ty, .. } | Expr::Index { ty, .. } | Expr::Member { ty, .. } | Expr::Structural { ty, .. } => ty.clone(),
+            | Expr::Call { ty, .. } | Expr::Index { ty, .. } | Expr::Member { ty, .. } | Expr::Structural { ty, .. } | Expr::ArrayLit { ty, .. } => ty.clone(),
             Expr::Len { .. } => prim("usize"),
         }
     }
     fn atomic(&self) -> bool {
         matches!(self, Expr::Lit { .. } | Expr::Ref { .. } | Expr::Call { .. } | Expr::Len { .. } | Expr::Index { .. } | Expr::Member { .. }
-            | Expr::Structural { .. })
+            | Expr::Structural { .. } | Expr::ArrayLit { .. })
     }
     fn operand_text(&self, p: &Program) -> String {
         if self.atomic() { self.text(p) } else { format!("({})", self.text(p)) }
@@ -77,6 +79,7 @@ impl Expr {
             Expr::Index { name, idx, .. } => format!("{}[{}]", name, idx.text(p)),
             Expr::Member { name, member, .. } => format!("{name}.{member}"),
             Expr::Structural { name, e, .. } => format!("{} {{ m: {} }}", name, e.text(p)),
+            Expr::ArrayLit { es, .. } => format!("[{}]", es.iter().map(|x| x.text(p)).collect::<Vec<_>>().join(", ")),
         }
     }
     /// the <<declared type, markers>> description of this expression as an operand of a cell
@@ -163,11 +166,13 @@ pub struct Gen {
     pub vars: Vec<Var>,
     pub funcs: Vec<Func>,
     counter: usize,
+    /// inside an `if` condition a structure literal would be taken for the branch block (E300)
+    no_struct_literal: bool,
 }
 
 impl Gen {
     pub fn new(seed: u64, stream: u64) -> Gen {
-        Gen { rng: Rng::new(seed, stream), vars: Vec::new(), funcs: Vec::new(), counter: 0 }
+        Gen { rng: Rng::new(seed, stream), vars: Vec::new(), funcs: Vec::new(), counter: 0, no_struct_literal: false }
     }
 
     fn vars_of(&self, t: &Ty) -> Vec<&Var> {
@@ -268,7 +273,11 @@ impl Gen {
                 }
             }
             "slice" => {
-                if self.rng.chance(50) {
+                if depth > 0 && self.rng.chance(35) {
+                    // an array literal with computed elements, coerced to the view
+                    let es: Vec<Expr> = (0..3).map(|_| self.expr("i32", depth - 1)).collect();
+                    Expr::ArrayLit { es, ty: ty::t(&["arr", "3", "i32"]) }
+                } else if self.rng.chance(50) {
                     Expr::Ref { k: 0, name: "arr".into(), decl: ty::t(&["arr", "3", "i32"]), ty: ty::t(&["arr", "3", "i32"]) }
                 } else {
                     Expr::Ref { k: 0, name: "sl".into(), decl: pt.clone(), ty: pt.clone() }
@@ -282,7 +291,11 @@ impl Gen {
                 }
             }
             "struct" => {
-                if self.rng.chance(50) {
+                if depth > 0 && !self.no_struct_literal && self.rng.chance(35) {
+                    // a structure literal with a computed member, coerced to the view
+                    let e = self.expr("i32", depth - 1);
+                    Expr::Structural { name: "S".to_string(), e: Box::new(e), ty: pt.clone() }
+                } else if self.rng.chance(50) {
                     Expr::Ref { k: 0, name: "s".into(), decl: pt.clone(), ty: pt.clone() }
                 } else {
                     Expr::Ref { k: 0, name: "vs".into(), decl: ty::t(&["view", "struct", "S"]), ty: pt.clone() }
@@ -340,8 +353,10 @@ impl Gen {
             6 | 7 => {
                 let p = *self.rng.pick(&PRIMS);
                 let op = if is_int(p) { *self.rng.pick(&CMP) } else { *self.rng.pick(&CMP[..2]) };
+                self.no_struct_literal = true;
                 let l = self.expr(p, depth.saturating_sub(1));
                 let r = self.expr(p, depth.saturating_sub(1));
+                self.no_struct_literal = false;
                 let then = self.assignment(1);
                 let els = if self.rng.chance(30) { Some(Box::new(self.assignment(1))) } else { None };
                 Stmt::If { op: op.to_string(), l, r, then: Box::new(then), els }
@@ -520,6 +535,13 @@ impl<'a> Mutator<'a> {
                 self.call(f, args);
             }
             Expr::Index { idx, .. } => self.expr(idx),
+            Expr::ArrayLit { es, .. } => {
+                self.in_arg += 1;
+                for x in es.iter_mut() {
+                    self.expr(x);
+                }
+                self.in_arg -= 1;
+            }
             Expr::Structural { e: inner, .. } => {
                 if self.hit() {
                     **inner = self.other_prim_var(&prim("i32"));
